@@ -58,6 +58,15 @@ def native_check(cfg, env=None, seed=0, warm=False):
         rbm.gibbs_steps(1, v0)
         for n_, p_ in rbm.named_parameters():
             p_.data *= 1.5
+        # ... and then rearranged in place so that every tensor keeps its entry sum, norm and shape exactly (multiples of 1/8
+        # exchanged between positions)
+        for n_, p_ in rbm.named_parameters():
+            p_.data = torch.tensor(rng.integers(-12, 13, size=tuple(p_.shape)) / 8.0, dtype=torch.double)
+        rbm.gibbs_steps(1, v0)
+        with torch.no_grad():
+            for n_, p_ in rbm.named_parameters():
+                if p_.numel() > 1:
+                    p_.copy_(p_.flatten().roll(1).reshape(p_.shape))
     par = C.np_params(rbm)
     vs, hs, T = _joint(par, pur)
     fails = []
